@@ -447,6 +447,14 @@ theorem C08_gen_single_anonymizer :
       Gen.C08.anonymizerToServer = true := by
   decide +kernel
 
+/-- Over the facts regenerated from internal/home on every run: the three client
+callbacks (`findMultiple`, `clientOrArtificial`, `shouldCountClient`) exist and
+none of them merely TRIES a lock — under contention they wait and then look the
+client up, they never guess. -/
+theorem C08_gen_finders_always_look_up :
+    (Gen.C08.finderFuncs == 3 && Gen.C08.finderTryLocks == 0) = true := by
+  decide +kernel
+
 /-! ## Non-vacuity -/
 
 section Examples
